@@ -478,11 +478,20 @@ def weave_fn(sf, it, spec, log, where, canary=False):
             if ls.get('decreases'):
                 txt += '    decreases ' + ls['decreases'].strip().rstrip(',') + ',\n'
             ed.add(toks[bi].start, toks[bi].start, txt)
+            if ls.get('head_ghost'):
+                for g in ls['head_ghost'].split(';'):
+                    if g.strip() and not g.strip().startswith('let ghost '):
+                        raise Undecided('%s: loop head_ghost may only contain `let ghost` statements' % where)
+                ed.add(toks[bi].end, toks[bi].end, '\n ' + ls['head_ghost'] + '\n')
             if ls.get('head_proof'):
                 ed.add(toks[bi].end, toks[bi].end, '\n proof { ' + ls['head_proof'] + ' }\n')
             if ls.get('after_proof'):
                 be = toks[match_close(toks, bi)]
                 ed.add(be.end, be.end, '\n proof { ' + ls['after_proof'] + ' }\n')
+            if ls.get('tail_proof'):
+                # proof block as the last statement of the loop body (the `;` closes a trailing expression statement)
+                be = toks[match_close(toks, bi)]
+                ed.add(be.start, be.start, '\n ; proof { ' + ls['tail_proof'] + ' }\n')
             if ls.get('iter_name'):
                 # `for x in e` -> `for x in NAME: e`
                 k = kwi + 1
